@@ -181,6 +181,9 @@ def write_evidence(ctx, mod, nviol, nknown, wall):
         'exhaustive': True,
         'notes': c['notes'][:40],
     }
+    for k, v in c.items():
+        if k not in cov and k not in ('samples', 'entries', 'discharged', 'designated', 'hand_discharged', 'trusted_base', 'notes'):
+            cov[k] = v
     ev = {
         'property_id': ctx.prop, 'tier': ctx.tier if ctx.tier in ('quick', 'thorough') else 'quick', 'seed': ctx.seed, 'level': level,
         'coverage': cov, 'assumptions': sorted(set(ctx.assumptions)), 'wall_s': round(wall, 2), 'violations': nviol,
